@@ -41,6 +41,8 @@ def log2frac(q: Fraction) -> float:
 
 
 def close(a: float, b: float, rel: float, abs_: float = 0.0) -> bool:
+    if not (math.isfinite(a) and math.isfinite(b)):
+        return a == b
     return abs(a - b) <= abs_ + rel * max(abs(a), abs(b))
 
 
@@ -208,6 +210,17 @@ class RiskReplay:
                     got = F.entropic_risk_measure(X2 + c, a=a)
                     self.compare("erm:overflow", f"entropic_risk_measure overflows or loses cash invariance at shift {c}", got,
                                  [e - c for e in exp], rs2, 1e-12, 1e-9, {"a2": a2, "shift": c})
+                # columns of very different levels in ONE tensor (a stabilising shift must be per column)
+                cs = torch.tensor([(-4096.0, 0.0, 8192.0, 512.0)[i % 4] for i in range(X2.size(1))], dtype=dtype)
+                got = F.entropic_risk_measure(X2 + cs, a=a)
+                self.compare("erm:overflow-mixed-columns", "entropic_risk_measure is not finite/exact when columns live on very different levels",
+                             got, [e - c for e, c in zip(exp, cs.tolist())], rs2, 1e-12, 1e-9, {"a2": a2})
+                # scale equivariance ERM_{a/s}(s x) = s ERM_a(x): tiny and huge risk aversions
+                for kexp in (20, 12, -10):
+                    sc = 2.0 ** kexp
+                    got = F.entropic_risk_measure(X2 * sc, a=a / sc)
+                    self.compare("erm:scale", f"entropic_risk_measure(x*2^{kexp}, a/2^{kexp}) is not 2^{kexp} * ERM_a(x)", got,
+                                 [e * sc for e in exp], rs2, 1e-11, 1e-12 * sc, {"a2": a2, "scale_exp": kexp})
             el = [float(fr(r["m2"][ai])) for r in rs2]
             got = nn.EntropicLoss(a)(X2)
             self.compare("eloss:value", "EntropicLoss is not mean exp(-a x)", got, el, rs2, 100 * tol, 0.0, {"a2": a2})
@@ -359,28 +372,28 @@ def axiom_replay(ctx: Ctx, pairs: List[Dict[str, Any]], seed: int) -> None:
                                           {"x": rs[i]["x"], "y": rs[i]["y"], "scale": scale, "rho_x": rx[i].item(), "rho_y": ry[i].item(), **extra})
 
                     leq = (X <= Y).all(0)
-                    report("monotonicity", leq & (ry > rx + tol_abs), {})
+                    report("monotonicity", leq & ~(ry <= rx + tol_abs), {})
                     for c in (-3.0 * scale, 2.0 * scale, 1e4 * scale):
                         rc = rho(Xs + c)
                         knc = known if lam is None else (known | conc(Xs + c, lam))
-                        bad = (rc - (rx - c)).abs() > tol_abs + 1e-12 * abs(c)
+                        bad = ~((rc - (rx - c)).abs() <= tol_abs + 1e-12 * abs(c))
                         report("cash-invariance", bad & ~(knc & ~known), {"c": c})
                     for w in (0.5, 0.25):
                         mix = w * Xs + (1 - w) * Ys
                         rm = rho(mix)
                         kn2 = torch.zeros_like(known) if lam is None else conc(mix, lam)
-                        bad = rm > w * rx + (1 - w) * ry + tol_abs
+                        bad = ~(rm <= w * rx + (1 - w) * ry + tol_abs)
                         if lam is not None and bool((bad & kn2 & ~known).any()):
                             ctx.violation("qcvar:concentrated-sample", f"{name}: convexity fails on a concentrated mixture", {"scale": scale})
                             bad = bad & ~kn2
                         report("convexity", bad, {"w": w})
                     lo, hi, mean = Xs.min(0).values, Xs.max(0).values, Xs.mean(0)
                     shift = 0.0 if lam is None else 1.0 / (4 * lam)
-                    report("bounds", (rx < -hi - shift - tol_abs) | (rx > -lo - shift + tol_abs) | (rx < -mean - shift - tol_abs), {})
+                    report("bounds", ~((rx >= -hi - shift - tol_abs) & (rx <= -lo - shift + tol_abs) & (rx >= -mean - shift - tol_abs)), {})
                     if fam == "es":
                         p = float(name[5:10])
                         for s in (2.0, 1e-3, 1e3):
-                            report("positive-homogeneity", (F.expected_shortfall(Xs * s, p, dim=0) - s * rx).abs() > tol_abs * s * 4, {"s": s})
+                            report("positive-homogeneity", ~((F.expected_shortfall(Xs * s, p, dim=0) - s * rx).abs() <= tol_abs * s * 4), {"s": s})
                 # ES non-increasing in p; ERM non-decreasing in a
                 prev = None
                 for p in ps:
@@ -509,23 +522,23 @@ def cash_replay(ctx: Ctx, recs: List[Dict[str, Any]]) -> None:
                 slo, shi, smean = sub.min(0).values, sub.max(0).values, sub.mean(0)
                 lossx = crit(sub)
                 lossc = crit(cash.unsqueeze(0).expand_as(sub))
-                bad = (lossx - lossc).abs() > 64 * tol * (1 + lossx.abs()) + 64 * tol
+                bad = ~((lossx - lossc).abs() <= 64 * tol * (1 + lossx.abs()) + 64 * tol)
                 if bool(bad.any()):
                     i = int(bad.nonzero()[0])
                     ctx.violation(f"cash:{fam}:not-equivalent", f"{name}: criterion(constant cash) differs from criterion(sample) ({mode})",
                                   {"x": rs[cols[i]]["x"], "cash": cash[i].item(), "loss_sample": lossx[i].item(), "loss_cash": lossc[i].item()})
-                bad = (cash < slo - tol - 1e-9) | (cash > shi + tol + 1e-9)
+                bad = ~((cash >= slo - tol - 1e-9) & (cash <= shi + tol + 1e-9))
                 if bool(bad.any()):
                     i = int(bad.nonzero()[0])
                     ctx.violation(f"cash:{fam}:outside-range", f"{name}.cash outside [worst, best] outcome ({mode})", {"x": rs[cols[i]]["x"], "cash": cash[i].item()})
                 if averse:
-                    bad = cash > smean + tol + 1e-9
+                    bad = ~(cash <= smean + tol + 1e-9)
                     if bool(bad.any()):
                         i = int(bad.nonzero()[0])
                         ctx.violation(f"cash:{fam}:above-mean", f"{name}.cash exceeds the mean although the criterion is risk-averse ({mode})", {"x": rs[cols[i]]["x"], "cash": cash[i].item()})
                 if ce is not None:
                     exp = torch.tensor(ce[:ncol], dtype=dtype)
-                    bad = (cash - exp).abs() > tol * (1 + exp.abs())
+                    bad = ~((cash - exp).abs() <= tol * (1 + exp.abs()))
                     if bool(bad.any()):
                         i = int(bad.nonzero()[0])
                         ctx.violation(f"cash:{fam}:value", f"{name}.cash is not the certainty equivalent of the specification ({mode})",
